@@ -70,6 +70,11 @@ def batch(prop, tier, sd):
             out.append(ds.tree_decl(rng, 't%04d' % i, n=rng.randint(4, 7)))
         for i in range(4 if quick else 24):
             out.append(ds.wide_decl(rng, 'w%04d' % i, width=(rng.randint(11, 14) if i % 4 else rng.randint(8, 10)), sync_root=(i % 3 != 2)))
+        # the requested type is a later result of a multi-result provider / a field of an expanded struct
+        mr = []
+        for d in [x for x in out if x['id'].startswith('r')]:
+            mr += ds.multi_ret_variants(d) + ds.field_ret_variants(d)
+        out += rng.sample(mr, min(len(mr), 8 if quick else 60))
         if prop == 'C02':
             base = [d for d in out if d['id'].startswith('r')][: (10 if quick else 60)]
             for d in base:
